@@ -177,6 +177,51 @@ impl String {
 /// a String is determined by its bytes
 pub uninterp spec fn string_of(b: Seq<u8>) -> String;
 
+impl ByteView for Bytes { open spec fn bv(&self) -> Seq<u8> { self@ } }
+
+/// the primitive `str` as far as this unit needs it: its UTF-8 bytes (always valid UTF-8 — language guarantee)
+#[verifier::external_body]
+pub struct Str { _p: () }
+
+impl Str {
+    pub uninterp spec fn bytes(&self) -> Seq<u8>;
+
+    #[verifier::external_body]
+    pub fn to_owned(&self) -> (r: String)
+        ensures r.bytes() == self.bytes(), r == string_of(self.bytes()),
+    { unimplemented!() }
+    #[verifier::external_body]
+    pub fn to_string(&self) -> (r: String)
+        ensures r.bytes() == self.bytes(), r == string_of(self.bytes()),
+    { unimplemented!() }
+    #[verifier::external_body]
+    pub fn len(&self) -> (r: usize)
+        ensures r == self.bytes().len(), r <= isize::MAX as usize,   // Rust slices never exceed isize::MAX bytes
+    { unimplemented!() }
+    #[verifier::external_body]
+    pub fn as_bytes(&self) -> (r: &[u8]) ensures r@ == self.bytes(), is_utf8(r@) { unimplemented!() }
+}
+
+/// core::str validators (paths `std::str::` / `core::str::` are mapped here by rule R15d)
+pub mod str {
+    use vstd::prelude::*;
+    use super::{ByteView, Str, is_utf8};
+    #[verifier::external_body]
+    pub struct Utf8Error { _p: () }
+    impl Utf8Error {
+        /// None = the input ends inside a code point; Some(n) = n unexpected bytes.  Nothing else is modelled.
+        #[verifier::external_body]
+        pub fn error_len(&self) -> (r: Option<usize>) { unimplemented!() }
+        #[verifier::external_body]
+        pub fn valid_up_to(&self) -> (r: usize) { unimplemented!() }
+    }
+    /// core::str::from_utf8: the reference validator
+    #[verifier::external_body]
+    pub fn from_utf8<B: ByteView + ?Sized>(v: &B) -> (r: Result<&Str, Utf8Error>)
+        ensures r.is_ok() <==> is_utf8(v.bv()), r matches Ok(s) ==> s.bytes() == v.bv(),
+    { unimplemented!() }
+}
+
 #[verifier::external_body]
 pub proof fn axiom_string_of(b: Seq<u8>)
     ensures string_of(b).bytes() == b,
